@@ -15,6 +15,47 @@ def cmp_release(case, impl, model):
     return impl == model.replace(" !ok", "")
 
 
+# coverage obligation: every operation of the correspondence must be sampled for each field that has it, and
+# the outcome classes that separate the branches of the conversions must all occur (value / none / panic).
+_COMMON = ["new", "add", "sub", "mul", "neg", "exp", "inv", "div", "grou", "fbwp", "conjugate", "add_assign", "sub_assign",
+           "mul_assign", "div_assign", "base_element", "try_from_slice", "as_bytes", "eab", "bae", "from_u8", "from_u16", "from_u32",
+           "try_from_u128"]
+REQUIRED_OPS = {
+    "f64": _COMMON + ["as_int", "double", "mul_small", "exp7", "eq", "try_from_u64", "try_from_bytes", "exp_vartime", "from_bool",
+                      "try_from_usize", "to_bool", "to_u8", "to_u16", "to_u32", "to_u64", "to_u128", "sf_as_int"],
+    "f62": _COMMON + ["as_int", "double", "eq", "try_from_u64", "exp_vartime", "to_u64", "to_u128", "try_from_bytes"],
+    "f128": _COMMON + ["from_u64"],
+}
+# (op suffix, outcome class) pairs that must be seen for every field having the op
+REQUIRED_OUTCOMES = [("bae", "none"), ("bae", "value"), ("try_from_slice", "none"), ("try_from_slice", "value"),
+                     ("base_element", "panic"), ("base_element", "value"), ("fbwp", "panic"), ("fbwp", "value"),
+                     ("grou", "panic"), ("grou", "value")]
+REQUIRED_OUTCOMES_F64 = [("to_bool", "none"), ("to_bool", "value"), ("to_u8", "none"), ("to_u8", "value"), ("to_u16", "none"),
+                         ("to_u16", "value"), ("to_u32", "none"), ("to_u32", "value"), ("try_from_usize", "none"),
+                         ("try_from_usize", "value")]
+
+
+def corr_coverage(lines):
+    seen, outcomes = set(), set()
+    for l in lines:
+        if " => " not in l:
+            continue
+        case, res = l.split(" => ", 1)
+        op = case.split()[0]
+        seen.add(op)
+        outcomes.add((op, res if res in ("none", "panic") else "value"))
+    missing = [f"{f}.{o}" for f, ops in REQUIRED_OPS.items() for o in ops if f"{f}.{o}" not in seen]
+    for f in REQUIRED_OPS:
+        for o, c in REQUIRED_OUTCOMES + (REQUIRED_OUTCOMES_F64 if f == "f64" else []):
+            if (f"{f}.{o}", c) not in outcomes:
+                missing.append(f"{f}.{o}:{c}")
+    # misaligned and ragged inputs of bytes_as_elements
+    bae = [l.split() for l in lines if ".bae " in l]
+    if not any(int(t[1], 16) != 0 for t in bae if len(t) > 2):
+        missing.append("bae:misaligned-offset")
+    return sorted(seen), missing
+
+
 def run(ctx):
     quick = ctx.tier == "quick"
     ctx.rule = ("correspondence: raw internal words from the boundary classes of the reductions (0,1,p-1,p-2,(p+-1)/2,2^32+-1,"
@@ -39,6 +80,9 @@ def run(ctx):
         hb = ctx.build_harness("c07", profile)
         if hb and drv:
             rc, out, _ = vcheck.sh([hb, "corr", str(ctx.seed), str(n)], timeout=600)
+            seen, missing = corr_coverage(out.split("\n"))
+            ctx.ob(f"coverage:corr-ops:{profile}", not missing, "not sampled: " + ", ".join(missing[:20]))
+            ctx.notes.setdefault("corr_ops", {})[profile] = len(seen)
             ctx.correspondence(f"raw-words-f64-f62-f128:{profile}", out.split("\n"), drv, compare=cmp, shards=8, timeout=1500)
         # property-level falsifier (independent oracle); more effort when an obligation is broken
         if hb:
